@@ -207,7 +207,7 @@ theorem C09_rewriter_failure (env : Env) (fs : FS) (acts : List Action) (args : 
 
 /-- a one-file world for the example below: path 3 holds content 10, which the rewriter maps to 11 -/
 def fsW' : FS := fun p => if p = 3 then some (.file 10 true) else none
-def envW' : Env := ⟨fun c => if c = 10 then some 11 else some c, fun _ => true, fun _ => true⟩
+def envW' : Env := { rw := fun c => if c = 10 then some 11 else some c, readable := fun _ => true, writable := fun _ => true }
 
 /-- **C09_rewriter_once.**  `Modifier` laziness: whatever the action list (PRINT, IFCHANGED, DIFF, REPLACE, …
     may all need the output), the rewriter is invoked at most once during one file's turn. -/
@@ -270,13 +270,14 @@ example : safeName "/tmp/w/v1->v2.py".toList = false ∧ safeName "/tmp/w/v1-v2.
 /-! ### Symlink policies -/
 
 /-- With a symlink policy action other than `replace` at the head of the tuple, every write of one
-    file's turn goes to a path that is not a symlink. -/
+    file's turn goes to a path that is not a symlink; through a symlink only under `follow`, to the file it
+    resolves to, and only if `Filename` accepts that file's real path. -/
 theorem processFile_head_policy {env : Env} {pol : Policy} {rest : List Action} (s : Run) (p q : Path)
     (hpol : pol ≠ .replace)
     (hne : (processFile env (.symlink pol :: rest) s p).fs q ≠ s.fs q) :
     isLink s.fs q = false ∧
     (isLink s.fs p = false → q = p) ∧
-    (isLink s.fs p = true → pol = .follow ∧ resolve s.fs p = some q) := by
+    (isLink s.fs p = true → pol = .follow ∧ resolve s.fs p = some q ∧ env.realSafe q = true) := by
   rw [processFile_fs] at hne
   obtain ⟨k, hk, hd, hcur, c, o, hc0, _, _, _⟩ :=
     runActions_change (.symlink pol :: rest) s.ans (Inv.fresh env s.fs p) hne
@@ -292,20 +293,24 @@ theorem processFile_head_policy {env : Env} {pol : Policy} {rest : List Action} 
         isLink s.fs (step env (.symlink pol) s.fs (MState.fresh p) s.ans).st.cur = false ∧
         (isLink s.fs p = false → (step env (.symlink pol) s.fs (MState.fresh p) s.ans).st.cur = p) ∧
         (isLink s.fs p = true → pol = .follow ∧
-          resolve s.fs p = some (step env (.symlink pol) s.fs (MState.fresh p) s.ans).st.cur) := by
+          resolve s.fs p = some (step env (.symlink pol) s.fs (MState.fresh p) s.ans).st.cur ∧
+          env.realSafe (step env (.symlink pol) s.fs (MState.fresh p) s.ans).st.cur = true) := by
       cases pol with
       | replace => exact absurd rfl hpol
       | follow =>
-        rw [step_follow]
+        have hnr := step_follow_done hd1
+        rw [step_follow s.ans hnr]
         by_cases hl : isLink s.fs p = true
         · cases hr : resolve s.fs p with
           | none => simp [contentAt, hr] at hc0
           | some t =>
             have hnl := resolve_nonlink hr
+            have hsafe : env.realSafe t = true := by
+              simpa [followRefused, MState.fresh, hl, hr] using hnr
             refine ⟨rfl, ?_, ?_, ?_⟩
             · simpa [MState.fresh, hl, hr] using hnl
             · intro h; rw [hl] at h; simp at h
-            · intro _; simp [MState.fresh, hl, hr]
+            · intro _; simpa [MState.fresh, hl, hr] using hsafe
         · have hl' : isLink s.fs p = false := by simpa using hl
           refine ⟨rfl, ?_, ?_, ?_⟩
           · simp [MState.fresh, hl']
@@ -331,14 +336,15 @@ theorem processFile_head_policy {env : Env} {pol : Policy} {rest : List Action} 
     exact ⟨knl, kp, kl⟩
 
 /-- **C09_follow_only_target.**  Under the follow policy the turn of a symlink argument `p` can change
-    only the node of the file the link resolves to (from any state of the loop over files); `p` itself
-    keeps its node. -/
+    only the node of the file the link resolves to (from any state of the loop over files), and only when
+    `Filename` accepts that file's real path (`realSafe`); `p` itself keeps its node.  So when the real path
+    is refused, that turn changes no node at all (`C09_follow_unsafe_untouched` says what happens instead). -/
 theorem C09_follow_only_target (env : Env) (rest : List Action) (s : Run) (p q : Path)
     (hl : isLink s.fs p = true)
     (hne : (processFile env (.symlink .follow :: rest) s p).fs q ≠ s.fs q) :
-    resolve s.fs p = some q ∧ q ≠ p := by
+    resolve s.fs p = some q ∧ q ≠ p ∧ env.realSafe q = true := by
   obtain ⟨hq, _, h3⟩ := processFile_head_policy s p q (by simp) hne
-  refine ⟨(h3 hl).2, ?_⟩
+  refine ⟨(h3 hl).2.1, ?_, (h3 hl).2.2⟩
   intro h; subst h; rw [hl] at hq; simp at hq
 
 /-- **C09_links_preserved.**  While the policy action (error, skip or follow) is at the head of the action
@@ -703,6 +709,118 @@ theorem C09_isolation_partial (env : Env) (fs : FS) (acts : List Action) (args :
     simp only [initRun, filenameArgs, List.mem_map, List.mem_filter, List.mem_reverse]
     exact ⟨a, ⟨ha, hbad⟩, rfl⟩
 
+/-! ### `--symlinks=follow` and a real path that `Filename` refuses -/
+
+/-- What the loop over files can have done to the file system while a policy action other than `replace`
+    heads the tuple: every symlink is as it was, every other node is as it was or a freshly written file. -/
+theorem processFiles_links_nodes {env : Env} {fs : FS} {pol : Policy} {rest : List Action} (hpol : pol ≠ .replace)
+    (files : List Path) (s : Run)
+    (hs : (∀ x, isLink fs x = true → s.fs x = fs x) ∧ (∀ x, s.fs x = fs x ∨ ∃ o, s.fs x = some (.file o false))) :
+    (∀ x, isLink fs x = true → (processFiles env (.symlink pol :: rest) files s).fs x = fs x) ∧
+    (∀ x, (processFiles env (.symlink pol :: rest) files s).fs x = fs x ∨
+      ∃ o, (processFiles env (.symlink pol :: rest) files s).fs x = some (.file o false)) := by
+  refine processFiles_induct (env := env) (acts := .symlink pol :: rest)
+    (fun s => (∀ x, isLink fs x = true → s.fs x = fs x) ∧ (∀ x, s.fs x = fs x ∨ ∃ o, s.fs x = some (.file o false)))
+    files s (fun s p _ hP => ?_) hs
+  obtain ⟨h1, h2⟩ := hP
+  constructor
+  · intro x hx
+    rw [← h1 x hx]
+    apply Classical.byContradiction
+    intro hne
+    have h3 := (processFile_head_policy s p x hpol hne).1
+    have h4 : isLink s.fs x = true := isLink_stable h1 hx
+    rw [h3] at h4; simp at h4
+  · intro x
+    rw [processFile_fs]
+    rcases runActions_nodes env (.symlink pol :: rest) s.fs (MState.fresh p) s.ans x with h | h
+    · rw [h]; exact h2 x
+    · exact Or.inr h
+
+/-- **C09_follow_unsafe_untouched.**  `--symlinks=follow` (its action at the head of the tuple, no `symlink_error`
+    behind it) and an argument `p` that is a symlink resolving to `q` whose real path `Filename` refuses
+    (`realSafe q = false`: a blank, a parenthesis, … in the resolved path).  Then
+    * over the whole run the link keeps its node, and `q` keeps its node unless `q` is itself among the
+      (expanded) arguments — it is never written *through* a link;
+    * at every position at which `p` stands in the expanded argument list, the loop reaches it, and its turn
+      changes nothing but the error list and the log: file system (the link, its target, every other path),
+      pending answers, exit flag are as the earlier files left them, the only events are `begin p`,
+      `failed p unsafeTarget` (nothing read, the rewriter not run, nothing printed / executed / asked);
+      the files after it are processed from that state;
+    * the run's exit status is non-zero and the final message names `p` with that error. -/
+theorem C09_follow_unsafe_untouched (env : Env) (fs : FS) (rest : List Action) (args : List Path) (ans : List Str)
+    (p q : Path) (hrest : .symlink .error ∉ rest)
+    (hl : isLink fs p = true) (hr : resolve fs p = some q) (hu : env.realSafe q = false) :
+    (processActions env fs (.symlink .follow :: rest) args ans).fs p = fs p ∧
+    (q ∉ (filenameArgs fs args).files → (processActions env fs (.symlink .follow :: rest) args ans).fs q = fs q) ∧
+    ∀ pre post s, (filenameArgs fs args).files = pre ++ p :: post →
+      s = processFiles env (.symlink .follow :: rest) pre (initRun fs (filenameArgs fs args) ans) →
+      s.halted = none ∧
+      processFile env (.symlink .follow :: rest) s p =
+        { s with ev := s.ev ++ [.begin p, .failed p .unsafeTarget], errors := s.errors ++ [⟨p, .unsafeTarget⟩] } ∧
+      processFiles env (.symlink .follow :: rest) (filenameArgs fs args).files (initRun fs (filenameArgs fs args) ans) =
+        processFiles env (.symlink .follow :: rest) post (processFile env (.symlink .follow :: rest) s p) ∧
+      (processActions env fs (.symlink .follow :: rest) args ans).status ≠ 0 ∧
+      (⟨p, .unsafeTarget⟩ : Msg) ∈ (processActions env fs (.symlink .follow :: rest) args ans).summary := by
+  have hpol : Policy.follow ≠ .replace := by simp
+  refine ⟨C09_links_preserved env fs .follow rest args ans hpol p hl, ?_, ?_⟩
+  · -- the target is written only under its own name
+    intro hq
+    rw [processActions_fs]
+    refine processFiles_induct (fun s => s.fs q = fs q) _ _ (fun s p' hp' hs => ?_) rfl
+    show (processFile env (.symlink .follow :: rest) s p').fs q = fs q
+    rw [← hs]
+    apply Classical.byContradiction
+    intro hne
+    obtain ⟨_, h2, h3⟩ := processFile_head_policy s p' q hpol hne
+    cases hl' : isLink s.fs p' with
+    | false => exact hq (by rw [h2 hl']; exact hp')
+    | true => have := (h3 hl').2.2; rw [hu] at this; simp at this
+  · intro pre post s hfiles hs
+    have hno : noSysExit fs (.symlink .follow :: rest) (filenameArgs fs args).files = true := by
+      simp [noSysExit, hrest]
+    obtain ⟨_, hiso, _⟩ := C09_isolation_partial env fs (.symlink .follow :: rest) args ans hno
+    obtain ⟨hpre, hwhole, herr⟩ := hiso pre p post hfiles
+    rw [← hs] at hpre hwhole herr
+    -- when `p`'s turn comes it is still a symlink resolving to `q`
+    have hinv := processFiles_links_nodes (env := env) (fs := fs) (rest := rest) hpol pre
+      (initRun fs (filenameArgs fs args) ans) ⟨fun _ _ => rfl, fun _ => Or.inl rfl⟩
+    rw [← hs] at hinv
+    have hl' : isLink s.fs p = true := isLink_stable hinv.1 hl
+    have hr' : resolve s.fs p = some q := resolveN_stable hinv.1 hinv.2 linkFuel p q hr
+    have href : followRefused env s.fs (MState.fresh p) = true := by
+      simp [followRefused, MState.fresh, hl', hr', hu]
+    refine ⟨hpre, processFile_follow_refused rest s p href, hwhole, ?_⟩
+    exact herr .unsafeTarget (by rw [runActions_follow_refused rest s.ans href])
+
+/-- **C09_follow_unsafe_main.**  The same for a whole invocation (`main`: option parsing, then `process_actions`)
+    whose last tuple-affecting option is `--symlinks=follow`: the link `p` keeps its node; its refused target `q`
+    keeps its node unless it is an argument itself; and if `p` is among the (expanded) arguments the exit status
+    is non-zero and — when the options parse — the final message names `p` with the `unsafeTarget` error. -/
+theorem C09_follow_unsafe_main (env : Env) (keep tty : Bool) (opts : List Opt) (fs : FS) (args : List Path)
+    (ans : List Str) (p q : Path) (hpresent : policyActionPresent opts .follow = true)
+    (hl : isLink fs p = true) (hr : resolve fs p = some q) (hu : env.realSafe q = false) :
+    (main env keep tty opts fs args ans).fs p = fs p ∧
+    (q ∉ (filenameArgs fs args).files → (main env keep tty opts fs args ans).fs q = fs q) ∧
+    (p ∈ (filenameArgs fs args).files →
+      (main env keep tty opts fs args ans).status ≠ 0 ∧
+      ((parseOptions keep tty opts).toOption.isSome = true →
+        (⟨p, .unsafeTarget⟩ : Msg) ∈ (main env keep tty opts fs args ans).summary)) := by
+  unfold main
+  cases hparse : parseOptions keep tty opts with
+  | error e => cases e <;> simp [Except.toOption]
+  | ok acts =>
+    simp only
+    obtain ⟨rest, hacts, hfree⟩ := parse_policy_present hpresent hparse
+    subst hacts
+    have hrest : Action.symlink .error ∉ rest := fun h => by
+      have := hfree _ h; simp [Action.isSymlink] at this
+    obtain ⟨h1, h2, h3⟩ := C09_follow_unsafe_untouched env fs rest args ans p q hrest hl hr hu
+    refine ⟨h1, h2, fun hp => ?_⟩
+    obtain ⟨pre, post, hfiles⟩ := List.append_of_mem hp
+    obtain ⟨_, _, _, h4, h5⟩ := h3 pre post _ hfiles rfl
+    exact ⟨h4, fun _ => h5⟩
+
 /-! ### Witnesses: where the unchanged code violates the property (D4, D12), and that the hypotheses of the
     theorems above are satisfiable by non-trivial inputs -/
 
@@ -715,7 +833,9 @@ def fsW : FS := fun p =>
   else if p = 4 then some (.file 12 true) else if p = 5 then some (.file 13 true) else none
 
 /-- rewriter: 10 ↦ 11, 13 fails, everything else is a fixed point -/
-def envW : Env := ⟨fun c => if c = 10 then some 11 else if c = 13 then none else some c, fun _ => true, fun p => p != 6⟩
+def envW : Env :=
+  { rw := fun c => if c = 10 then some 11 else if c = 13 then none else some c, readable := fun _ => true,
+    writable := fun p => p != 6 }
 
 /-- D4: `tidy-imports --symlinks=skip --replace link.py`: the policy asked for is `skip`, yet the tuple is
     `[IFCHANGED, REPLACE]` and the symlink is replaced by a regular file with the rewritten content. -/
@@ -840,13 +960,55 @@ example : (processActions envW fsW [.symlink .error, .ifchanged, .replace] [9, 5
 -- (`-r c.py t.py` with c.py in a read-only directory): it keeps its node, the failure is reported, and the
 -- file after it is rewritten
 example :
-    (processActions ⟨envW.rw, fun _ => true, fun p => p != 3⟩ fsW [.symlink .error, .ifchanged, .replace] [3, 2] []).fs 3
+    (processActions { envW with writable := fun p => p != 3 } fsW [.symlink .error, .ifchanged, .replace] [3, 2] []).fs 3
       = some (.file 10 true) ∧
-    (processActions ⟨envW.rw, fun _ => true, fun p => p != 3⟩ fsW [.symlink .error, .ifchanged, .replace] [3, 2] []).fs 2
+    (processActions { envW with writable := fun p => p != 3 } fsW [.symlink .error, .ifchanged, .replace] [3, 2] []).fs 2
       = some (.file 11 false) ∧
-    (processActions ⟨envW.rw, fun _ => true, fun p => p != 3⟩ fsW [.symlink .error, .ifchanged, .replace] [3, 2] []).status = 1 ∧
-    (processActions ⟨envW.rw, fun _ => true, fun p => p != 3⟩ fsW [.symlink .error, .ifchanged, .replace] [3, 2] []).summary
+    (processActions { envW with writable := fun p => p != 3 } fsW [.symlink .error, .ifchanged, .replace] [3, 2] []).status = 1 ∧
+    (processActions { envW with writable := fun p => p != 3 } fsW [.symlink .error, .ifchanged, .replace] [3, 2] []).summary
       = [⟨3, .io⟩] := by decide
+
+/-- `fsW` plus: 7 ↦ symlink to 8, 8 ↦ regular file with content 10 (think `h.py -> My Project/t.py`),
+    9 ↦ symlink to 7 (a chain). -/
+def fsU : FS := fun p =>
+  if p = 7 then some (.link 8) else if p = 8 then some (.file 10 true) else if p = 9 then some (.link 7) else fsW p
+
+/-- `Filename` refuses the real path of 8 (and therefore of 7 and 9, which resolve to it). -/
+def envU : Env := { envW with realSafe := fun p => p != 8 }
+
+-- C09_follow_unsafe_untouched: its hypotheses hold for `--replace --symlinks=follow c.py h.py k.py link.py`
+-- (3 regular, 7 and 9 resolve to the refused 8, 1 resolves to the acceptable 2) …
+example : Action.symlink .error ∉ [Action.ifchanged, .replace] ∧ isLink fsU 7 = true ∧ resolve fsU 7 = some 8 ∧
+    isLink fsU 9 = true ∧ resolve fsU 9 = some 8 ∧ envU.realSafe 8 = false ∧
+    (parseOptions false false [.replace, .symlinks (some .follow)]).toOption = some [.symlink .follow, .ifchanged, .replace] := by
+  decide
+example : policyActionPresent [.replace, .symlinks (some .follow)] .follow = true ∧
+    (main envU false false [.replace, .symlinks (some .follow)] fsU [3, 7] []).status = 1 ∧
+    (main envU false false [.replace, .symlinks (some .follow)] fsU [3, 7] []).summary = [⟨7, .unsafeTarget⟩] ∧
+    (main envU false false [.replace, .symlinks (some .follow)] fsU [3, 7] []).fs 8 = some (.file 10 true) := by decide
+-- … and the run does what the theorem says: 7, 9 stay links, 8 keeps bytes and inode, both failures are
+-- named, status 1, the rewriter ran for 3 and 2 only, and the files around them are rewritten
+example :
+    (processActions envU fsU [.symlink .follow, .ifchanged, .replace] [3, 7, 9, 1] []).fs 7 = some (.link 8) ∧
+    (processActions envU fsU [.symlink .follow, .ifchanged, .replace] [3, 7, 9, 1] []).fs 9 = some (.link 7) ∧
+    (processActions envU fsU [.symlink .follow, .ifchanged, .replace] [3, 7, 9, 1] []).fs 8 = some (.file 10 true) ∧
+    (processActions envU fsU [.symlink .follow, .ifchanged, .replace] [3, 7, 9, 1] []).fs 3 = some (.file 11 false) ∧
+    (processActions envU fsU [.symlink .follow, .ifchanged, .replace] [3, 7, 9, 1] []).fs 2 = some (.file 11 false) ∧
+    (processActions envU fsU [.symlink .follow, .ifchanged, .replace] [3, 7, 9, 1] []).fs 1 = some (.link 2) ∧
+    (processActions envU fsU [.symlink .follow, .ifchanged, .replace] [3, 7, 9, 1] []).status = 1 ∧
+    (processActions envU fsU [.symlink .follow, .ifchanged, .replace] [3, 7, 9, 1] []).summary =
+      [⟨7, .unsafeTarget⟩, ⟨9, .unsafeTarget⟩] ∧
+    rewrites (processActions envU fsU [.symlink .follow, .ifchanged, .replace] [3, 7, 9, 1] []).ev = 2 := by decide
+-- the hypothesis matters: with an acceptable real path the same command rewrites 8 through the link …
+example : (processActions envW fsU [.symlink .follow, .ifchanged, .replace] [7] []).fs 8 = some (.file 11 false) ∧
+    (processActions envW fsU [.symlink .follow, .ifchanged, .replace] [7] []).status = 0 := by decide
+-- … and the other policies never build the real path: `replace` replaces the link, `skip` skips it, both exit 0
+example : (processActions envU fsU [.symlink .replace, .ifchanged, .replace] [7] []).fs 7 = some (.file 11 false) ∧
+    (processActions envU fsU [.symlink .replace, .ifchanged, .replace] [7] []).fs 8 = some (.file 10 true) ∧
+    (processActions envU fsU [.symlink .replace, .ifchanged, .replace] [7] []).status = 0 ∧
+    (processActions envU fsU [.symlink .skip, .ifchanged, .replace] [7] []).fs 7 = some (.link 8) ∧
+    (processActions envU fsU [.symlink .skip, .ifchanged, .replace] [7] []).status = 0 ∧
+    (processActions envU fsU [.symlink .error, .ifchanged, .replace] [7] []).sysexit = some 7 := by decide
 
 end Witness
 
